@@ -9,7 +9,7 @@ TICK_EVERY = 5      # every 5th case of every unit is repeated with numpy intege
 RULE = ("all well-formed note sets (<=2 over the full lattice, <=3/<=4 over a reduced lattice, + 0-2 signature events) "
         "x 6 value lists x extension on/off, each compared with the independent fit model; distinct = distinct "
         "(values, extend, notes, events); non-trivial = some length changes or a note is removed")
-SCALE = ('16-120 notes (long), ladder 129..1025; a note and its re-strike with 4..130 other notes of the channel struck in between; notes 769..70001 ticks long')
+SCALE = ('16-120 notes (long), ladder 129..1025; a note and its re-strike with 4..130 other notes of the channel struck in between; notes 769..70001 ticks long; a value list naming values twice; control and program changes; numpy integer ticks every 5th case')
 ASSUMPTIONS = ["inputs are well-formed; any minimiser of |d - length| over the fitting values is accepted"]
 REQUIRED_FLAGS = ["insertion_order_reverse", "insertion_order_ons_first", "after_history", "note_removed", "note_extended", "note_shortened", "tie_between_two_values", "back_to_back_repeat",
                   "same_pitch_two_channels", "shorter_than_smallest_value", "non_note_event"]
